@@ -145,9 +145,22 @@ func gen(p protos.P, limit uint32, r *core.Rand, routes map[string]string, valid
 		v := []string{"-1", "0", "99999999999", "abc", "2147483647", fmt.Sprint(uint64(limit) + 1)}[r.Intn(6)]
 		b := []byte("POST " + routes["echo"] + " HTTP/1.1\r\nContent-Length: " + v + "\r\nContent-Type: text/plain\r\nX-Seq: 5\r\nX-Mtype: 1\r\n\r\nabc")
 		return input{Class: "http-content-length", Bytes: b, Oversz: v == "99999999999" || v == "2147483647" || v == fmt.Sprint(uint64(limit)+1)}
-	case x < 18 && p.HTTP && limit <= 1<<20:
+	case x < 18 && p.HTTP && limit <= 1<<20 && r.Intn(3) == 0:
 		b := append([]byte("POST /"), bytes.Repeat([]byte("a"), int(limit)*4)...)
 		return input{Class: "http-endless-line", Bytes: b, Oversz: true}
+	case x < 18 && p.HTTP && limit <= 1<<20 && r.Intn(2) == 0:
+		// two Content-Length headers: a negative one and then one far above the limit; payload withheld
+		big := uint64(limit)*8 + 1<<16
+		b := []byte(fmt.Sprintf("POST %s HTTP/1.1\r\nContent-Length: -%d\r\nContent-Length: %d\r\nContent-Type: text/plain\r\nX-Seq: 5\r\nX-Mtype: 1\r\n\r\nabc", routes["echo"], big-64, big))
+		return input{Class: "http-dup-content-length", Bytes: b, Oversz: true}
+	case x < 18 && p.HTTP && limit <= 1<<20:
+		// very many header lines, each short: the message as a whole is far above the limit
+		var hb bytes.Buffer
+		hb.WriteString("POST " + routes["echo"] + " HTTP/1.1\r\n")
+		for i := 0; hb.Len() < int(limit)*6+4096; i++ {
+			fmt.Fprintf(&hb, "X-H%d: %s\r\n", i, strings.Repeat("v", 40))
+		}
+		return input{Class: "http-many-headers", Bytes: hb.Bytes(), Oversz: true}
 	case x < 19:
 		// several valid frames back to back with junk in between
 		b := append(append(append([]byte(nil), f...), r.Bytes(1+r.Intn(6))...), f...)
